@@ -115,6 +115,13 @@ class Gen:
             for c in out:
                 if r.random() < 0.6:
                     c[3] = r.choice([' tail text ', '\n    ', 'Ünï', ' & ', 'x'])
+        if r.random() < 0.08 and any(c[0] == 'item' for c in out):
+            # the same clip used twice in one body: a second item with an ID the body already holds (and, sometimes, two blank ones)
+            twin = [list(c) for c in out if c[0] == 'item'][0]
+            out.insert(r.randrange(len(out) + 1), twin)
+            if r.random() < 0.3:
+                out.insert(r.randrange(len(out) + 1), B.item(BLANK))
+                out.append(B.item(BLANK))
         if r.random() < 0.08:
             # a storyItem that is NOT a direct child of the body (inside a paragraph): it is content, not an item of the story
             out.insert(r.randrange(len(out) + 1), E('p', E('storyItem', E('itemID', text='deep'), E('itemSlug', text='embedded')), text='para with an embedded cue'))
